@@ -29,7 +29,7 @@ FILES = {
     "pkg/frame/reader.go": ["C02", "C05", "C06", "C07", "C08"],
     "pkg/frame/writer.go": ["C01", "C08", "C09", "C06"],
     "pkg/frame/readwriter.go": ["C09"],
-    "pkg/message/readwriter.go": ["C03", "C04"],
+    "pkg/message/readwriter.go": ["C03", "C04", "C17"],
     "pkg/dialect/readwriter.go": ["C17"],
     "pkg/streamwriter/writer.go": ["C09", "C06", "C07"],
     "pkg/tlog/reader.go": ["C20"],
@@ -141,10 +141,10 @@ def run_one(slot, idx, m):
             res["keys"] = keys[:3]
             break
         if p.returncode == 2:
+            # the check could not even complete on this tree: an alarm, but not a localised violation report
             tails[chk] = p.stdout[-300:]
-            if "watchdog" in p.stdout or "cannot build" in p.stdout or "child crashed" in p.stdout or "floor" in p.stdout:
-                killed_by = chk + ":harness-error"
-                break
+            killed_by = chk + ":harness-error"
+            break
     res["status"] = "killed" if killed_by else "survived"
     res["killed_by"] = killed_by
     if tails:
